@@ -1,5 +1,6 @@
 import LekkerVerif.Model.DriverBase
 import LekkerVerif.Model.Params
+import LekkerVerif.Model.Flatten
 open Lean
 
 namespace Driver
@@ -17,6 +18,14 @@ def opRename (j : Json) : Json :=
   | some table, some d =>
     let r := renameFixed table (⟨d⟩ : Dict String)
     Json.mkObj [("dict", Json.arr (r.kv.map fun kv => Json.arr #[Json.str kv.1, Json.str kv.2]).toArray)]
+  | _, _ => errJson "parse"
+
+/-- op `compose`: rename-table composition of `flatten_top_level` (tables as stored: [new, old] pairs) -/
+def opCompose (j : Json) : Json :=
+  match (j.getObjVal? "P").toOption >>= parsePairsStr, (j.getObjVal? "L").toOption >>= parsePairsStr with
+  | some P, some L =>
+    let r := Flatten.composeTables P L
+    Json.mkObj [("table", Json.arr (r.map fun kv => Json.arr #[Json.str kv.1, Json.str kv.2]).toArray)]
   | _, _ => errJson "parse"
 
 end Driver
